@@ -189,3 +189,23 @@ Theorem C07_stable_layer : forall is_upper lower s o ln p,
   layer_dir s ln = Some p -> ~ touches_layer o ln ->
   layer_dir (step is_upper lower s o).1 ln = Some p.
 Proof. exact stable_layer. Qed.
+
+(** Every file name and directory in a font built through the API (any history from a new font
+    without raw entry access) was assigned by the file-name function for the current glyph /
+    layer name, and therefore satisfies the clauses above: portable, '.glif' suffix and no
+    leading period for glyphs, 'glyphs.' prefix and <= 255 bytes for layer directories.  (The
+    255-byte bound for glif names holds outside the class [ClippedClash], see C07_glyph_file_name.) *)
+Theorem C07_assigned_invariant : forall is_upper lower ops s',
+  clean is_upper lower init ops -> run is_upper lower init ops = Some s' ->
+  Inv lower s' /\ AInv is_upper lower s'.
+Proof.
+  intros iu lo ops s' Hc Hr.
+  exact (reachable_assigned iu lo ops init s' (inv_init lo) (ainv_init iu lo) Hc Hr).
+Qed.
+Theorem C07_assigned_portable : forall is_upper lower s, Inv lower s -> AInv is_upper lower s ->
+  forall l, l ∈ layers s ->
+    (forall g q, l_contents l !! g = Some q ->
+       portable_name q /\ (exists c t, q = c :: t /\ c <> DOT) /\ (exists m, q = m ++ GLYPH_SUFFIX)) /\
+    (l_path l = DEFAULT_GLYPHS_DIRNAME \/
+     (portable_name (l_path l) /\ (exists m, l_path l = LAYER_PREFIX ++ m /\ m <> []) /\ (blen (l_path l) <= MAX_LEN)%N)).
+Proof. exact assigned_portable. Qed.
